@@ -14,6 +14,10 @@ OwnEv(e) ==
   ELSE IF ~BodyWF(k.tag, k.body) THEN "C08.wellformed"       \* what PGPy emits is a well-formed packet of its tag
   ELSE "ok"
 \* a foreign packet e.f (well-formed per its header) that PGPy accepted: o1 = first re-serialisation, o2 = second
+\* what the parsed object reports about the subpackets of a signature: types and critical bits, in order, per area
+TC(sps) == [k \in 1..Len(sps) |-> <<sps[k].type, sps[k].critical>>]
+ObjSubsOK(o, f) == LET hs == SubSplit(f.hashedArea)  us == SubSplit(f.unhashedArea) IN
+  (hs.ok /\ us.ok) => ([k \in 1..Len(o.h) |-> <<o.h[k][1], o.h[k][2]>>] = TC(hs.sps) /\ [k \in 1..Len(o.u) |-> <<o.u[k][1], o.u[k][2]>>] = TC(us.sps))
 ForeignEv(e) ==
   LET kf == PacketAt(e.f \o e.tail, 1) IN
   IF ~kf.ok \/ (kf.next # Len(e.f) + 1 /\ ~kf.indet) THEN "harness.foreign-header"
@@ -24,6 +28,7 @@ ForeignEv(e) ==
     ELSE IF e.remaining # e.tail THEN "C08.consume"
     ELSE IF k1.tag # kf.tag THEN "C08.fields"
     ELSE IF Norm(k1.tag, k1.body) # Norm(kf.tag, kf.body) THEN "C08.fields"
+    ELSE IF "objsubs" \in DOMAIN e /\ kf.tag = 2 /\ SigFields(kf.body).ok /\ ~ObjSubsOK(e.objsubs, SigFields(kf.body)) THEN "C08.fields"
     ELSE IF ~e.reparsed THEN "C08.idempotent"
     ELSE IF e.o2 # e.o1 THEN "C08.idempotent"
     ELSE "ok"
